@@ -207,6 +207,31 @@ pub proof fn lemma_canon_atom_iff(s: Seq<u8>, p: nat)
     }
 }
 
+/// two byte strings `ff ++ a ++ b` and `ff ++ c ++ d` that are equal, with |a| == |c|, agree part by part
+pub proof fn lemma_marker_split(x: Seq<u8>, y: Seq<u8>, a: Seq<u8>, b: Seq<u8>, c: Seq<u8>, d: Seq<u8>)
+    requires
+        x =~= seq![0xffu8] + a + b,
+        y =~= seq![0xffu8] + c + d,
+        x =~= y,
+        a.len() == c.len(),
+    ensures
+        a =~= c,
+        b =~= d,
+{
+    assert(x.len() == 1 + a.len() + b.len());
+    assert(y.len() == 1 + c.len() + d.len());
+    assert(x.len() == y.len());
+    assert(b.len() == d.len());
+    assert forall|i: int| 0 <= i < a.len() implies a[i] == c[i] by {
+        assert(a[i] == x[i + 1]);
+        assert(c[i] == y[i + 1]);
+    }
+    assert forall|i: int| 0 <= i < b.len() implies b[i] == d[i] by {
+        assert(b[i] == x[i + 1 + a.len()]);
+        assert(d[i] == y[i + 1 + c.len()]);
+    }
+}
+
 /// C15 converse / C16: the tokens of a decoded tree are all canonical exactly when the consumed
 /// bytes are the serialization of the tree
 #[verifier::spinoff_prover]
@@ -249,19 +274,7 @@ pub proof fn lemma_canon_tree_iff(s: Seq<u8>, p: nat)
             }
             lemma_tree_roundtrip(pre1, l, ser(r) + post);
             assert(pa == p + 1 + ser(l).len());
-            assert(sl =~= ser(l)) by {
-                assert forall|i: int| 0 <= i < sl.len() implies sl[i] == ser(l)[i] by {
-                    assert(sl[i] == whole[i + 1]);
-                    assert(ser(t)[i + 1] == ser(l)[i]);
-                }
-            }
-            assert(sr =~= ser(r)) by {
-                assert(sr.len() == ser(r).len());
-                assert forall|i: int| 0 <= i < sr.len() implies sr[i] == ser(r)[i] by {
-                    assert(sr[i] == whole[i + 1 + sl.len()]);
-                    assert(ser(t)[i + 1 + ser(l).len()] == ser(r)[i]);
-                }
-            }
+            lemma_marker_split(whole, ser(t), sl, sr, ser(l), ser(r));
         }
     } else {
         lemma_canon_atom_iff(s, p);
